@@ -1,6 +1,6 @@
 (* Properties/C09.v — Scheduler bookkeeping is conserved. *)
-From Storrent Require Import Base.Bytes Base.Bencode Gen.Consts Model.Wire Model.PeerCore Model.Sched
-  Proof.PeerCore Proof.Conserve Proof.Sched.
+From Storrent Require Import Base.Bytes Base.Bencode Gen.Consts Model.Wire Model.PeerCore Model.Sched Model.AvailSys
+  Proof.PeerCore Proof.Conserve Proof.Sched Proof.Avail Proof.AvailSys.
 Open Scope N_scope.
 
 (* A peer answers every block it is commanded to request with exactly one TorData or TorDrop.
@@ -66,3 +66,46 @@ Theorem c09_zero_when_alone : forall g,
   quiescent y -> (forall p, In p (y_peers y) -> sp_alive p = false) -> forall c, y_inflight y c = 0%nat.
 Proof. exact zero_when_alone. Qed.
 Print Assumptions c09_zero_when_alone.
+
+(* ---------- availability ---------- *)
+
+(* Every change of what a peer advertises is reported.  For every step of the peer core (any
+   message — Have, Bitfield, HaveAll, HaveNone, don't-have, repeated or changing, before or after
+   the metadata is known — any command, tick or oracle value) from ANY state with a well-formed
+   bitmap, and every piece i: reading the TorPeerHave / TorPeerBitmap events of the step in order
+   (a bitmap event counts once for every set bit, as the torrent's loop does), the torrent's view
+   of "this peer has i" goes from what the peer advertised before to what it advertises after,
+   and no event says have(true) for a piece the torrent already counts, or have(false) for one
+   it does not (arun = None). *)
+Theorem c09_peer_reports_bitmap_changes : forall i s ballast o k,
+  wf_bm (peer_bm s) ->
+  let a := fst (step s ballast o k) in
+  wf_bm (peer_bm (a_st a)) /\ arun (adv s i) (dirs i (a_evs a)) = Some (adv (a_st a) i).
+Proof. exact step_advertised. Qed.
+Print Assumptions c09_peer_reports_bitmap_changes.
+
+(* When the peer's main loop exits, whatever it advertised is retracted. *)
+Theorem c09_exit_retracts : forall i s,
+  wf_bm (peer_bm s) -> arun (adv s i) (dirs i (a_evs (retract_bitmap (acc0 s)))) = Some false.
+Proof. exact exit_retracts. Qed.
+Print Assumptions c09_exit_retracts.
+
+(* The system of Model/AvailSys.v: any number of peers joining (metadata known or not), handling
+   messages, commands and ticks in any order, exiting at any moment, and the torrent applying
+   their events in order to its saturating 16-bit counters (peer_have / peer_bitmap), with events
+   in transit for any length of time.  Once the events in transit have been processed the
+   availability of every piece is the number of connected peers advertising it (at most 65535
+   peers ever joined: the counters saturate there) ... *)
+Theorem c09_avail_at_quiescence : forall ops i,
+  let y := fold_left asys_step ops asys_init in
+  N.of_nat (length (v_peers y)) <= 65535 -> v_evq y = [] -> cget (v_avail y) i = N.of_nat (advertisers y i).
+Proof. exact avail_at_quiescence. Qed.
+Print Assumptions c09_avail_at_quiescence.
+
+(* ... and zero when nobody is connected. *)
+Theorem c09_avail_zero_when_alone : forall ops i,
+  let y := fold_left asys_step ops asys_init in
+  N.of_nat (length (v_peers y)) <= 65535 -> v_evq y = [] -> (forall p, In p (v_peers y) -> ap_alive p = false) ->
+  cget (v_avail y) i = 0.
+Proof. exact avail_zero_when_alone. Qed.
+Print Assumptions c09_avail_zero_when_alone.
